@@ -88,12 +88,14 @@ func runC06(c *Ctx, r *Report) {
 		"R-C06.6":  "Verify is total for every codec: the entry handed to ToHashable is assigned on every path",
 		"R-C06.7":  "difference admits an entry only on the equal-log-id edge",
 		"R-C06.10": "a log reopened through any loader keeps the access controller it was configured with",
+		"R-C06.11": "the entry objects a merge installs as heads are the log's own validated objects, never the objects handed in by the other log",
 		"control":  "engine positive/negative controls analysed on every run",
 	} {
 		r.Doc(k, v)
 	}
 	nilControls(c, r, "control")
 	optionForwarding(c, r, "R-C06.10", constructorLogSpecs(), "AccessController")
+	mergedHeadObjects(c, r, "R-C06.11")
 	join := p.FuncI("", "IPFSLog", "Join")
 	app := p.FuncI("", "IPFSLog", "Append")
 	all := map[*types.Var]bool{}
@@ -1221,4 +1223,119 @@ func refusedOperationsLeaveNoTrace(c *Ctx, r *Report, rule string) {
 	joinAllOrNothing(c, r, rule, jf, all)
 	af, fields := appendAdmissionFlow(c)
 	appendDeniedStoresNothing(c, r, rule, af, fields)
+}
+
+// entryCarrying: values through which entry objects travel (an entry, a list or map of entries).
+func entryCarrying(t types.Type) bool {
+	switch u := t.Underlying().(type) {
+	case *types.Slice:
+		return entryCarrying(u.Elem())
+	case *types.Pointer:
+		return entryCarrying(u.Elem())
+	case *types.Tuple:
+		for i := 0; i < u.Len(); i++ {
+			if entryCarrying(u.At(i).Type()) {
+				return true
+			}
+		}
+		return false
+	}
+	if n := namedOf(t); n != nil {
+		switch n.Obj().Name() {
+		case "IPFSLogEntry", "IPFSLogOrderedEntries", "OrderedMap", "Entry":
+			return true
+		}
+	}
+	return false
+}
+
+// mergedHeadObjects: the entry objects a merge installs as heads are the log's own (validated) objects, never the
+// objects handed in by the other log. Identifiers (hash strings) of the source's heads may decide which heads
+// are kept; the objects themselves must come from the log's own index, its own heads, or the validated items.
+func mergedHeadObjects(c *Ctx, r *Report, rule string) {
+	p := c.P
+	join := p.FuncI("", "IPFSLog", "Join")
+	sf := p.SSAFunc(join)
+	logT := p.Named("", "IPFSLog")
+	// the unvalidated source: what RawHeads()/Heads() of the other log returned (or the first result of a
+	// one-shot accessor on it)
+	other := sf.Params[1]
+	isSourceHeads := func(v ssa.Value) bool {
+		call, ok := v.(*ssa.Call)
+		if !ok {
+			return false
+		}
+		name := ""
+		var recv ssa.Value
+		if call.Call.IsInvoke() {
+			name, recv = call.Call.Method.Name(), call.Call.Value
+		} else if cal := call.Call.StaticCallee(); cal != nil && len(call.Call.Args) > 0 && cal.Signature.Recv() != nil {
+			name, recv = cal.Name(), call.Call.Args[0]
+		}
+		if recv == nil {
+			return false
+		}
+		fromOther := false
+		for x := range backSlice(recv, nil) {
+			if x == ssa.Value(other) {
+				fromOther = true
+			}
+		}
+		if !fromOther {
+			return false
+		}
+		switch name {
+		case "RawHeads", "Heads", "headsAndEntries", "snapshot", "ToSnapshot":
+			return true
+		}
+		return false
+	}
+	ownIndexLookup := func(v ssa.Value) bool {
+		call, ok := v.(*ssa.Call)
+		if !ok {
+			return false
+		}
+		name := ""
+		var recv ssa.Value
+		if call.Call.IsInvoke() {
+			name, recv = call.Call.Method.Name(), call.Call.Value
+		} else if cal := call.Call.StaticCallee(); cal != nil && len(call.Call.Args) > 0 && cal.Signature.Recv() != nil {
+			name, recv = cal.Name(), call.Call.Args[0]
+		}
+		if name != "Get" && name != "UnsafeGet" {
+			return false
+		}
+		if u, ok := recv.(*ssa.UnOp); ok && u.Op == token.MUL {
+			if f, fa := fieldOf(u.X); f != nil && f.Name() == "Entries" && namedOf(fa.X.Type()) == logT {
+				if _, isParam := fa.X.(*ssa.Parameter); isParam {
+					return fa.X == ssa.Value(sf.Params[0])
+				}
+			}
+		}
+		return false
+	}
+	n := 0
+	for _, st := range fieldStores(sf, p.Field("", "IPFSLog", "heads"), true) {
+		n++
+		src := ""
+		sl := backSliceOpt(st.Val, func(x ssa.Value) bool {
+			if ownIndexLookup(x) {
+				return false // objects looked up in the log's own index are the validated ones
+			}
+			if ex, ok := x.(*ssa.Extract); ok {
+				return entryCarrying(ex.Type()) || entryCarrying(ex.Tuple.Type())
+			}
+			return entryCarrying(x.Type())
+		}, false)
+		for x := range sl {
+			if isSourceHeads(x) && entryCarrying(x.Type()) {
+				// reached as an object (the filter stops at identifiers)
+				src = p.Pos(x.Pos())
+			}
+		}
+		r.Check(src == "", rule, r.Key(rule, join, "head-objects", ""), st.Pos(),
+			"the entry objects stored as heads come from the log's own index, its own heads or the validated items",
+			"the heads stored by the merge can hold entry objects handed in by the other log (read at "+src+") that were never validated: for a head both logs share, the other log's object replaces the log's own one, so a forged object with a genuine hash shows up in Heads() and Values() without ever passing CanAppend or Verify")
+	}
+	r.Floor(rule, "heads stores in Join", n, 1)
 }
